@@ -56,17 +56,157 @@ func (k c33StateKind) String() string {
 // c33Wd is the harness-side description of one withdrawal.
 type c33Wd struct {
 	Key        int
-	Script     bool // native-script reward account (outside the statement)
+	Script     bool // script-hash reward account (outside the statement)
 	Amount     uint64
 	Registered bool
 	Delegated  bool
+	// Synthetic: the credential hash is Hash (a special or random value no
+	// harness key hashes to) instead of the hash of key Key / its native script.
+	Synthetic bool
+	Hash      [28]byte `json:"-"`
+	HashHex   string   `json:",omitempty"`
+	Class     string   // real-key | pool-id | drep-id | all-zero | all-ff | low-one | high-one | random
+}
+
+func (w c33Wd) hash() [28]byte {
+	switch {
+	case w.Synthetic:
+		return w.Hash
+	case w.Script:
+		return policyOfKey(w.Key)
+	}
+	return keys[w.Key].hash
 }
 
 func (w c33Wd) addr(net uint8) []byte {
-	if w.Script {
-		return scriptRewardAddr(net, w.Key)
+	return rawRewardAddr(net, w.hash(), w.Script)
+}
+
+func (w c33Wd) class() string {
+	if w.Class != "" {
+		return w.Class
 	}
-	return rewardAddr(net, w.Key)
+	return "real-key"
+}
+
+// c33Special are the credential hashes with special bit patterns; the hash
+// value is irrelevant to the statement, so the reference table is unchanged.
+var c33Special = func() []c33Wd {
+	mk := func(class string, f func(h *[28]byte)) c33Wd {
+		w := c33Wd{Synthetic: true, Class: class}
+		f(&w.Hash)
+		w.HashHex = fmt.Sprintf("%x", w.Hash[:])
+		return w
+	}
+	return []c33Wd{
+		mk("all-zero", func(h *[28]byte) {}),
+		mk("all-ff", func(h *[28]byte) {
+			for i := range h {
+				h[i] = 0xff
+			}
+		}),
+		mk("low-one", func(h *[28]byte) { h[27] = 1 }),
+		mk("high-one", func(h *[28]byte) { h[0] = 1 }),
+	}
+}()
+
+func c33Classes(wds []c33Wd) string {
+	set := map[string]bool{}
+	for _, w := range wds {
+		set[w.class()] = true
+	}
+	var out []string
+	for k := range set {
+		out = append(out, k)
+	}
+	sort.Strings(out)
+	return strings.Join(out, "+")
+}
+
+// c33Accessor is the accessor oracle: Address.StakeCredential() must return
+// (credential, true) with the type and the 28 bytes the harness put into the
+// address whenever the staking part is a key or script hash -- whatever the
+// bytes are -- and (_, false) only for pointer / absent staking parts.
+// wantKind: 0 key hash, 1 script hash, -1 none.
+func c33Accessor(rec *evi.Recorder, where string, a *common.Address, raw []byte, wantKind int, wantHash [28]byte, class string,
+	report func(key, what string, cs any)) {
+	cred, ok := a.StakeCredential()
+	rec.Eval()
+	rec.Class(fmt.Sprintf("accessor:%s:kind=%d:%s", where, wantKind, class))
+	form := fmt.Sprintf("header-%x", raw[0]>>4)
+	cs := map[string]any{"address": evi.Hex(raw), "want_kind": wantKind, "want_hash": fmt.Sprintf("%x", wantHash[:]),
+		"got_ok": ok, "got_type": cred.CredType, "got_hash": fmt.Sprintf("%x", cred.Credential[:])}
+	switch {
+	case wantKind < 0 && ok:
+		report(fmt.Sprintf("C33:accessor:StakeCredential:%s:reports-credential-for-pointer-or-absent-staking-part", form),
+			fmt.Sprintf("Address.StakeCredential() of %x returns a credential although the address has no staking credential", raw), cs)
+	case wantKind >= 0 && !ok:
+		report(fmt.Sprintf("C33:accessor:StakeCredential:%s:hash=%s:no-credential-reported", form, class),
+			fmt.Sprintf("Address.StakeCredential() of %x returns ok=false although the staking part is a %s hash %x",
+				raw, map[int]string{0: "key", 1: "script"}[wantKind], wantHash[:]), cs)
+	case wantKind >= 0 && (int(cred.CredType) != wantKind || [28]byte(cred.Credential) != wantHash):
+		report(fmt.Sprintf("C33:accessor:StakeCredential:%s:hash=%s:wrong-credential", form, class),
+			fmt.Sprintf("Address.StakeCredential() of %x returns type %d hash %x, the address carries type %d hash %x",
+				raw, cred.CredType, cred.Credential[:], wantKind, wantHash[:]), cs)
+	}
+}
+
+// c33AddrBytes builds a Shelley address of the given header type (high nibble).
+func c33AddrBytes(typ byte, net uint8, pay, stake [28]byte, ptr []byte) (raw []byte, kind int) {
+	raw = []byte{typ<<4 | net}
+	switch typ {
+	case 0, 1, 2, 3:
+		raw = append(append(raw, pay[:]...), stake[:]...)
+		kind = int(typ >> 1)
+	case 4, 5:
+		raw = append(append(raw, pay[:]...), ptr...)
+		kind = -1
+	case 6, 7:
+		raw = append(raw, pay[:]...)
+		kind = -1
+	case 14, 15:
+		raw = append(raw, stake[:]...)
+		kind = int(typ & 1)
+	}
+	return raw, kind
+}
+
+var c33AddrTypes = []byte{0, 1, 2, 3, 4, 5, 6, 7, 14, 15}
+
+func c33CheckAddr(rec *evi.Recorder, where string, typ byte, net uint8, pay, stake [28]byte, class string, ptr []byte,
+	report func(key, what string, cs any)) {
+	raw, kind := c33AddrBytes(typ, net, pay, stake, ptr)
+	a, err := common.NewAddressFromBytes(raw)
+	if err != nil {
+		rec.Class(fmt.Sprintf("accessor:%s:address_decode_rejected:type-%x", where, typ))
+		return
+	}
+	c33Accessor(rec, where, &a, raw, kind, stake, class, report)
+}
+
+// c33WithdrawalAccessors applies the accessor oracle to the reward addresses
+// the library decoded from the transaction's withdrawals.
+func c33WithdrawalAccessors(rec *evi.Recorder, where string, dtx ledger.Transaction, net uint8, wds []c33Wd,
+	report func(key, what string, cs any)) {
+	want := map[string]c33Wd{}
+	for _, w := range wds {
+		want[string(w.addr(net))] = w
+	}
+	for a := range dtx.Withdrawals() {
+		raw, err := a.Bytes()
+		if err != nil {
+			continue
+		}
+		w, ok := want[string(raw)]
+		if !ok {
+			panic(fmt.Sprintf("harness: decoder reports a withdrawal address %x that was not encoded", raw))
+		}
+		kind := 0
+		if w.Script {
+			kind = 1
+		}
+		c33Accessor(rec, where+":withdrawal", a, raw, kind, w.hash(), w.class(), report)
+	}
 }
 
 type c33WantKind int
@@ -267,10 +407,7 @@ func c33State(c *Case, wds []c33Wd, hasCap bool) (common.LedgerState, error) {
 		return nil, err
 	}
 	for _, w := range wds {
-		h := keys[w.Key].hash
-		if w.Script {
-			h = policyOfKey(w.Key)
-		}
+		h := w.hash()
 		delete(st.stakeReg, h)
 		delete(st.drepDeleg, h)
 		if w.Registered {
@@ -289,7 +426,11 @@ func c33State(c *Case, wds []c33Wd, hasCap bool) (common.LedgerState, error) {
 func c33Desc(wds []c33Wd) string {
 	var parts []string
 	for _, w := range wds {
-		parts = append(parts, fmt.Sprintf("k%d/script=%v/amt=%d/reg=%v/deleg=%v", w.Key, w.Script, w.Amount, w.Registered, w.Delegated))
+		id := fmt.Sprintf("k%d", w.Key)
+		if w.Synthetic {
+			id = "h" + w.HashHex
+		}
+		parts = append(parts, fmt.Sprintf("%s/script=%v/amt=%d/reg=%v/deleg=%v", id, w.Script, w.Amount, w.Registered, w.Delegated))
 	}
 	sort.Strings(parts)
 	return strings.Join(parts, ",")
@@ -312,6 +453,9 @@ func c33Eval(rec *evi.Recorder, where string, c *Case, dtx ledger.Transaction, r
 	rec.Eval()
 	rec.Class(fmt.Sprintf("%s:want_%s", where, want.Kind))
 	rec.Class(fmt.Sprintf("%s:rule_%s", where, gotRule.Class))
+	for _, w := range wds {
+		rec.Class(fmt.Sprintf("%s:acct:%s", where, w.class()))
+	}
 	nonTrivial := false
 	for _, w := range wds {
 		if !w.Script && w.Registered {
@@ -334,7 +478,7 @@ func c33Eval(rec *evi.Recorder, where string, c *Case, dtx ledger.Transaction, r
 	if want.Kind == c33Unspecified {
 		rec.Class(fmt.Sprintf("%s:unspecified(%s):%s:lib_%s", where, want.Why, pvBand(pv), gotRule.Class))
 	} else if d := c33Judge(want, gotRule); d != "" {
-		key := fmt.Sprintf("C33:rule:%s-tx:%s-pp:%s:valid=%v:%s:want-%s:%s", era, ppKind, pvBand(pv), isValid, kind, want.Kind, d)
+		key := fmt.Sprintf("C33:rule:%s-tx:%s-pp:%s:valid=%v:%s:want-%s:%s:acct=%s", era, ppKind, pvBand(pv), isValid, kind, want.Kind, d, c33Classes(wds))
 		report(key, fmt.Sprintf("conway.UtxoValidateWithdrawals on a %s transaction with %s parameters at PV%d (IsValid=%v, state %s): want %s (%s), got %s %s",
 			era, ppKind, pv, isValid, kind, want.Kind, want.Why, gotRule.Class, gotRule.Err), caseObj("rule", gotRule))
 	}
@@ -342,6 +486,14 @@ func c33Eval(rec *evi.Recorder, where string, c *Case, dtx ledger.Transaction, r
 	// accepts both parameter types
 	if era == Conway && ppKind != "conway" {
 		return
+	}
+	for _, w := range wds {
+		if w.Synthetic {
+			// no key hashes to a synthetic credential, so the transaction cannot carry
+			// the vkey witness the whole list demands: only the rule is judged
+			rec.Class(where + ":full_skipped_unsignable_account")
+			return
+		}
 	}
 	full := common.VerifyTransaction(dtx, c.Slot, ls, pp, rulesFor(era))
 	gotFull := c33Classify(full)
@@ -357,7 +509,7 @@ func c33Eval(rec *evi.Recorder, where string, c *Case, dtx ledger.Transaction, r
 		return
 	}
 	if d := c33Judge(want, gotFull); d != "" {
-		key := fmt.Sprintf("C33:full:%s-rules:%s-pp:%s:valid=%v:%s:want-%s:%s", era, ppKind, pvBand(pv), isValid, kind, want.Kind, d)
+		key := fmt.Sprintf("C33:full:%s-rules:%s-pp:%s:valid=%v:%s:want-%s:%s:acct=%s", era, ppKind, pvBand(pv), isValid, kind, want.Kind, d, c33Classes(wds))
 		report(key, fmt.Sprintf("VerifyTransaction(%s rule list) with %s parameters at PV%d (IsValid=%v, state %s): want %s (%s), got %s %s",
 			era, ppKind, pv, isValid, kind, want.Kind, want.Why, gotFull.Class, gotFull.Err), caseObj("full", gotFull))
 	}
@@ -365,43 +517,56 @@ func c33Eval(rec *evi.Recorder, where string, c *Case, dtx ledger.Transaction, r
 
 func TestC33(t *testing.T) {
 	rec := evi.New(t, "C33", evi.Exploration,
-		"grid: tx era {conway,dijkstra} x parameter type {conway,dijkstra} x PV 0..20 x amount {0,7} x state {delegated,undelegated,no-capability} x IsValid {true,false}, one key-hash withdrawal from a registered account, harness-built signed transactions decoded by the library; each point through conway.UtxoValidateWithdrawals and (where the parameter type fits) the era's full UtxoValidationRules via VerifyTransaction; oracle = reference table on result and error type. rapid part: generated valid transactions (certs, mint, proposals, several withdrawals incl. zero amounts, script-hash and unregistered accounts) at PV 0..20. non-trivial = at least one key-hash withdrawal from a registered account; distinct by (era, pp type, pv, IsValid, state, withdrawal set, tx hash)")
+		"grid (x 2 networks x 5 reward-account credential hashes: a real key, all-zero, all-0xff, 0..01, 01..0): tx era {conway,dijkstra} x parameter type {conway,dijkstra} x PV 0..20 x amount {0,7} x state {delegated,undelegated,no-capability} x IsValid {true,false}, one key-hash withdrawal from a registered account, harness-built signed transactions decoded by the library; each point through conway.UtxoValidateWithdrawals and (where the parameter type fits) the era's full UtxoValidationRules via VerifyTransaction; oracle = reference table on result and error type. rapid part: generated valid transactions (certs, mint, proposals, several withdrawals incl. zero amounts, script-hash and unregistered accounts, accounts whose hash is a pool/DRep id, accounts with special or random credential bytes) at PV 0..20; accessor oracle: Address.StakeCredential() of every decoded withdrawal address and of every Shelley address form x network x special hash returns exactly the credential bytes/type the harness encoded, and none for pointer/enterprise addresses. non-trivial = at least one key-hash withdrawal from a registered account; distinct by (era, pp type, pv, IsValid, state, withdrawal set, tx hash)")
 	defer rec.Finish()
 	rec.Assume("ed25519/blake2b from x/crypto are trusted; the library's era decoders are trusted to report the withdrawals the harness encoded (checked: decoded withdrawal count equals the encoded count)",
 		"a ledger state 'that cannot answer the delegation query' is one that does not implement common.DRepDelegationState",
 		"for Dijkstra, IsValid=false is applied the way the block decoder applies it (TxIsValid=false on the decoded transaction)")
 
 	// ---- exhaustive grid ------------------------------------------------------
+	// The stated grid, once per reward-account credential of a fixed list: a real
+	// key hash and the special bit patterns (all-zero, all-0xff, ...), on both networks.
 	points := 0
+	accounts := append([]c33Wd{{Key: 4}}, c33Special...)
+	violation := func(key, what string, cs any) { rec.Violation(key, what, cs) }
 	for _, era := range []Era{Conway, Dijkstra} {
-		for _, invalid := range []bool{false, true} {
-			for _, amount := range []uint64{0, 7} {
-				p := defaultParams(era)
-				tx := &TxSpec{Era: era, Net: 0}
-				tx.Ins = []In{{TxID: hash256([]byte("c33/in")), Ix: 0, Key: 0, V: Val{Coin: 100_000_000}}}
-				tx.Wdrl = []Wd{{Key: 4, Amount: amount}}
-				tx.Fee = 400_000
-				tx.Outs = []Out{{Addr: payAddr(0, 1), V: Val{Coin: 100_000_000 + amount - tx.Fee}}}
-				if invalid {
-					c33Phase2(tx, p, In{TxID: hash256([]byte("c33/coll")), Ix: 1, Key: 2, V: Val{Coin: 5_000_000}})
-				}
-				ss := newStSpec()
-				ss.StakeReg[4] = true
-				c := &Case{Tx: tx, P: p, SS: ss, Slot: 10}
-				dtx, raw, err := c33Decode(tx, invalid)
-				if err != nil {
-					t.Fatalf("grid tx %s invalid=%v: %v", era, invalid, err)
-				}
-				if len(dtx.Withdrawals()) != 1 {
-					t.Fatalf("decoded withdrawals: %d", len(dtx.Withdrawals()))
-				}
-				for _, ppKind := range []string{"conway", "dijkstra"} {
-					for pv := uint(0); pv <= 20; pv++ {
-						for _, kind := range []c33StateKind{c33Delegated, c33Undelegated, c33NoCap} {
-							wds := []c33Wd{{Key: 4, Amount: amount, Registered: true, Delegated: kind == c33Delegated}}
-							c33Eval(rec, "grid", c, dtx, raw, wds, pv, ppKind, !invalid, kind, kind != c33NoCap,
-								func(key, what string, cs any) { rec.Violation(key, what, cs) })
-							points++
+		for _, net := range []uint8{0, 1} {
+			for _, acct := range accounts {
+				for _, invalid := range []bool{false, true} {
+					for _, amount := range []uint64{0, 7} {
+						p := defaultParams(era)
+						tx := &TxSpec{Era: era, Net: net}
+						tx.Ins = []In{{TxID: hash256([]byte("c33/in")), Ix: 0, Key: 0, V: Val{Coin: 100_000_000}}}
+						if acct.Synthetic {
+							tx.WdrlRaw = []WdRaw{{Hash: acct.Hash, Amount: amount}}
+						} else {
+							tx.Wdrl = []Wd{{Key: acct.Key, Amount: amount}}
+						}
+						tx.Fee = 400_000
+						tx.Outs = []Out{{Addr: payAddr(net, 1), V: Val{Coin: 100_000_000 + amount - tx.Fee}}}
+						if invalid {
+							c33Phase2(tx, p, In{TxID: hash256([]byte("c33/coll")), Ix: 1, Key: 2, V: Val{Coin: 5_000_000}})
+						}
+						ss := newStSpec()
+						c := &Case{Tx: tx, P: p, SS: ss, Slot: 10}
+						dtx, raw, err := c33Decode(tx, invalid)
+						if err != nil {
+							t.Fatalf("grid tx %s invalid=%v: %v", era, invalid, err)
+						}
+						if len(dtx.Withdrawals()) != 1 {
+							t.Fatalf("decoded withdrawals: %d", len(dtx.Withdrawals()))
+						}
+						w := acct
+						w.Amount, w.Registered = amount, true
+						c33WithdrawalAccessors(rec, "grid", dtx, net, []c33Wd{w}, violation)
+						for _, ppKind := range []string{"conway", "dijkstra"} {
+							for pv := uint(0); pv <= 20; pv++ {
+								for _, kind := range []c33StateKind{c33Delegated, c33Undelegated, c33NoCap} {
+									w.Delegated = kind == c33Delegated
+									c33Eval(rec, "grid", c, dtx, raw, []c33Wd{w}, pv, ppKind, !invalid, kind, kind != c33NoCap, violation)
+									points++
+								}
+							}
 						}
 					}
 				}
@@ -409,8 +574,19 @@ func TestC33(t *testing.T) {
 		}
 	}
 	rec.SetExtra("grid_points", points)
-	rec.SetExtra("grid", "2 tx eras x 2 parameter types x 21 PVs x 2 amounts x 3 states x 2 IsValid = 1008 points, all enumerated")
+	rec.SetExtra("grid", "[2 tx eras x 2 parameter types x 21 PVs x 2 amounts x 3 states x 2 IsValid = 1008 points] x 2 networks x 5 credential hashes (real key, all-zero, all-0xff, 0..01, 01..0) = 10080 points, all enumerated; the whole rule list runs where the account can sign (real key)")
 	rec.SetExhaustive(true)
+
+	// ---- accessor sweep: every Shelley address form x network x special hashes ----
+	for _, typ := range c33AddrTypes {
+		for _, net := range []uint8{0, 1} {
+			for _, acct := range accounts {
+				for _, pay := range [][28]byte{keys[0].hash, {}} {
+					c33CheckAddr(rec, "sweep", typ, net, pay, acct.hash(), acct.class(), []byte{0x81, 0x00, 0x02, 0x03}, violation)
+				}
+			}
+		}
+	}
 
 	// ---- generated noise -------------------------------------------------------
 	rec.Check(func(rt *rapid.T) {
@@ -445,6 +621,47 @@ func TestC33(t *testing.T) {
 				}
 				wds = append(wds, w)
 				tx.Wdrl = append(tx.Wdrl, Wd{Key: k, Amount: w.Amount})
+			}
+			// a reward account whose key hash equals a pool / DRep id that may be used
+			// elsewhere in the transaction (the harness owns the key, so it can sign)
+			if rapid.IntRange(0, 3).Draw(rt, "wdIdKey") == 0 {
+				ids := append(append([]int(nil), poolKeys...), drepKeys...)
+				k := ids[rapid.IntRange(0, len(ids)-1).Draw(rt, "wdIdKeyWhich")]
+				class := "pool-id"
+				if k >= drepKeys[0] {
+					class = "drep-id"
+				}
+				w := c33Wd{Key: k, Registered: true, Class: class, Amount: rapid.Uint64Range(0, 5).Draw(rt, "wdIdAmt"),
+					Delegated: rapid.Bool().Draw(rt, "wdIdDeleg")}
+				wds = append(wds, w)
+				tx.Wdrl = append(tx.Wdrl, Wd{Key: k, Amount: w.Amount})
+			}
+			// accounts with special / random credential bytes (cannot sign: rule only)
+			if rapid.IntRange(0, 2).Draw(rt, "wdSynthetic") == 0 {
+				n := rapid.IntRange(1, 2).Draw(rt, "nSynthetic")
+				seen := map[string]bool{}
+				for i := 0; i < n; i++ {
+					var w c33Wd
+					if j := rapid.IntRange(0, len(c33Special)+1).Draw(rt, "synWhich"); j < len(c33Special) {
+						w = c33Special[j]
+					} else {
+						w = c33Wd{Synthetic: true, Class: "random"}
+						copy(w.Hash[:], rapid.SliceOfN(rapid.Byte(), 28, 28).Draw(rt, "synHash"))
+						w.HashHex = fmt.Sprintf("%x", w.Hash[:])
+					}
+					w.Script = rapid.IntRange(0, 5).Draw(rt, "synScript") == 0
+					// the mock state is keyed by the 28 bytes alone: one account per hash
+					id := w.HashHex
+					if seen[id] {
+						continue
+					}
+					seen[id] = true
+					w.Registered = rapid.IntRange(0, 39).Draw(rt, "synUnreg") != 0
+					w.Delegated = rapid.Bool().Draw(rt, "synDeleg")
+					w.Amount = rapid.Uint64Range(0, 3).Draw(rt, "synAmt")
+					wds = append(wds, w)
+					tx.WdrlRaw = append(tx.WdrlRaw, WdRaw{Hash: w.Hash, Script: w.Script, Amount: w.Amount})
+				}
 			}
 			// a native-script reward account (outside the statement)
 			if rapid.IntRange(0, 4).Draw(rt, "wdScript") == 0 {
@@ -490,8 +707,24 @@ func TestC33(t *testing.T) {
 		if len(wds) == 0 {
 			rec.Class("noise:no_withdrawals")
 		}
+		failRT := func(key, what string, cs any) { rec.Fail(rt, key, what, cs) }
+		c33WithdrawalAccessors(rec, "noise", dtx, c.Tx.Net, wds, failRT)
+		{ // accessor oracle on one drawn address of any Shelley form
+			var pay, stake [28]byte
+			class := "random"
+			if j := rapid.IntRange(0, len(c33Special)+2).Draw(rt, "addrStake"); j < len(c33Special) {
+				stake, class = c33Special[j].Hash, c33Special[j].Class
+			} else if j == len(c33Special) {
+				stake, class = keys[rapid.IntRange(0, nKeys-1).Draw(rt, "addrStakeKey")].hash, "real-key"
+			} else {
+				copy(stake[:], rapid.SliceOfN(rapid.Byte(), 28, 28).Draw(rt, "addrStakeBytes"))
+			}
+			copy(pay[:], rapid.SliceOfN(rapid.Byte(), 28, 28).Draw(rt, "addrPayBytes"))
+			ptr := []byte{byte(rapid.IntRange(0, 127).Draw(rt, "ptrSlot")), byte(rapid.IntRange(0, 127).Draw(rt, "ptrTx")), byte(rapid.IntRange(0, 127).Draw(rt, "ptrCert"))}
+			typ := c33AddrTypes[rapid.IntRange(0, len(c33AddrTypes)-1).Draw(rt, "addrType")]
+			c33CheckAddr(rec, "noise", typ, uint8(rapid.IntRange(0, 1).Draw(rt, "addrNet")), pay, stake, class, ptr, failRT)
+		}
 		rec.Class(fmt.Sprintf("noise:%s:%s:valid=%v:%s", era, pvBand(pv), !invalid, kind))
-		c33Eval(rec, "noise", c, dtx, raw, wds, pv, ppKind, !invalid, kind, kind != c33NoCap,
-			func(key, what string, cs any) { rec.Fail(rt, key, what, cs) })
+		c33Eval(rec, "noise", c, dtx, raw, wds, pv, ppKind, !invalid, kind, kind != c33NoCap, failRT)
 	})
 }
